@@ -7,9 +7,11 @@ from .std import path, path_rx, trait, some, NONE, ok, err, D, D1, conc, truth
 from .std_fmt import new_formatter, render_args, fmt_of, join_parts
 
 
-def out_stream(fail_at=None):
-    """Write sink: data = {'writes': [text values], 'calls': n, 'fail_at': k or None (every call from the k-th on fails)}"""
-    return Opaque('OutStream', {'writes': [], 'calls': 0, 'fail_at': fail_at})
+def out_stream(fail_at=None, fail_mode='error'):
+    """Write sink: data = {'writes': [text values], 'calls': n, 'fail_at': k or None (every call from the k-th on fails),
+    'fail_mode': 'error' (the call returns Err) | 'zero' (the stream accepts nothing more: write returns Ok(0), hence
+    write_all / write_fmt return Err(WriteZero))}"""
+    return Opaque('OutStream', {'writes': [], 'calls': 0, 'fail_at': fail_at, 'fail_mode': fail_mode})
 
 
 def in_stream(lines, fail_at=None):
@@ -20,51 +22,103 @@ def in_stream(lines, fail_at=None):
 def io_error(): return Adt('io::Error', 0, [])
 
 
-def _stream(vm, r, kind):
-    v = r
-    for _ in range(6):
+def io_log(vm):
+    """order of the calls that reached the two streams on this path: 'out' / 'in'"""
+    if not hasattr(vm, 'io_events'): vm.io_events = []
+    return vm.io_events
+
+
+def _unwrap(vm, r):
+    """(stream Opaque data, buffering wrapper Adt or None)"""
+    v = r; wrapper = None
+    for _ in range(8):
         if isinstance(v, Ref): v = vm.ref_get(v)
-        elif isinstance(v, Adt) and v.ty in ('BufReader', 'BufWriter', 'LineWriter'): v = v.fields[0]
+        elif isinstance(v, Adt) and v.ty in ('BufReader', 'BufWriter', 'LineWriter'):
+            if v.ty == 'BufWriter' and wrapper is None: wrapper = v
+            v = v.fields[0]
         else: break
+    return v, wrapper
+
+
+def _stream(vm, r, kind):
+    v, _ = _unwrap(vm, r)
     if not (isinstance(v, Opaque) and v.kind == kind): raise Unmodelled(f'{kind} expected, got {v!r}')
     return v.data
 
 
-@path('BufReader::new', 'BufReader::with_capacity', 'BufWriter::new')
-def _(vm, a, ci): return Adt(ci.selfty.split('<')[0], 0, [a[-1]])
+@path('BufReader::new', 'BufReader::with_capacity', 'BufWriter::new', 'BufWriter::with_capacity', 'LineWriter::new')
+def _(vm, a, ci):
+    h = ci.selfty.split('<')[0]
+    return Adt(h, 0, [a[-1], HList([])] if h == 'BufWriter' else [a[-1]])
+
+
+def _sink_write(vm, d, text):
+    """one call on the real sink; returns True (accepted) / False (fault)"""
+    k = d['calls']; d['calls'] += 1
+    io_log(vm).append('out')
+    if d['fail_at'] is not None and k >= d['fail_at']: return False
+    d['writes'].append(text); return True
+
+
+def _bufwriter_flush(vm, d, w):
+    """BufWriter: everything buffered so far reaches the sink in one call (bounded outputs stay below its capacity)"""
+    pend = w.fields[1].items
+    if not pend: return True
+    text = pend[0]
+    from .std_str import str_concat
+    for p in pend[1:]: text = str_concat(vm, text, p)
+    del pend[:]
+    return _sink_write(vm, d, text)
 
 
 @trait(('*', 'Write', 'write_fmt'))
 def _(vm, a, ci):
-    d = _stream(vm, a[0], 'OutStream')
-    k = d['calls']; d['calls'] += 1
-    if d['fail_at'] is not None and k >= d['fail_at']: return err(io_error())
+    v, w = _unwrap(vm, a[0])
+    if not (isinstance(v, Opaque) and v.kind == 'OutStream'): raise Unmodelled(f'OutStream expected, got {v!r}')
+    d = v.data
     fr = new_formatter(); render_args(vm, a[1], fr)
-    d['writes'].append(join_parts(vm, fmt_of(vm, fr).parts))
-    return ok(UNIT)
+    text = join_parts(vm, fmt_of(vm, fr).parts)
+    if w is not None: w.fields[1].items.append(text); return ok(UNIT)
+    return ok(UNIT) if _sink_write(vm, d, text) else err(io_error())
+
+
+def _buf_text(vm, bs):
+    from .std_str import _bytes_to_str
+    if isinstance(bs, SliceRef): return _bytes_to_str(vm, Adt('Vec', 0, [HList(list(vm.ref_get(bs.ref).items[bs.start:bs.end]))])), bs.end - bs.start
+    if isinstance(bs, (SymStr, BStr)):
+        try: n = str_len(vm, bs)
+        except Unmodelled: n = z3.BitVec(vm.fresh('nbytes'), 64)
+        return bs, n
+    raise Unmodelled(f'Write::write of {bs!r}'[:120])
 
 
 @trait(('*', 'Write', 'write_all'), ('*', 'Write', 'write'))
 def _(vm, a, ci):
-    d = _stream(vm, a[0], 'OutStream')
-    k = d['calls']; d['calls'] += 1
-    if d['fail_at'] is not None and k >= d['fail_at']: return err(io_error())
-    bs = a[1]
-    from .std_str import _bytes_to_str
-    items = vm.ref_get(bs.ref).items[bs.start:bs.end] if isinstance(bs, SliceRef) else None
-    d['writes'].append(_bytes_to_str(vm, Adt('Vec', 0, [HList(list(items))])) if items is not None else bs)
-    return ok(UNIT) if ci.method == 'write_all' else ok(len(items) if items is not None else 0)
+    v, w = _unwrap(vm, a[0])
+    if not (isinstance(v, Opaque) and v.kind == 'OutStream'): raise Unmodelled(f'OutStream expected, got {v!r}')
+    d = v.data
+    text, n = _buf_text(vm, a[1])
+    if w is not None:
+        w.fields[1].items.append(text); return ok(UNIT) if ci.method == 'write_all' else ok(n)
+    if ci.method == 'write' and d['fail_mode'] == 'zero' and d['fail_at'] is not None and d['calls'] >= d['fail_at']:
+        d['calls'] += 1; io_log(vm).append('out'); return ok(0)          # the stream accepts nothing more
+    if not _sink_write(vm, d, text): return err(io_error())
+    return ok(UNIT) if ci.method == 'write_all' else ok(n)
 
 
 @trait(('*', 'Write', 'flush'))
 def _(vm, a, ci):
-    _stream(vm, a[0], 'OutStream'); return ok(UNIT)
+    v, w = _unwrap(vm, a[0])
+    if not (isinstance(v, Opaque) and v.kind == 'OutStream'): raise Unmodelled(f'OutStream expected, got {v!r}')
+    if w is not None and not _bufwriter_flush(vm, v.data, w): return err(io_error())
+    return ok(UNIT)
 
 
 @trait(('*', 'BufRead', 'read_line'))
 def _(vm, a, ci):
     d = _stream(vm, a[0], 'InStream')
     k = d['calls']; d['calls'] += 1
+    io_log(vm).append('in')
     if d['fail_at'] is not None and k >= d['fail_at']: return err(io_error())
     if d['pos'] >= len(d['lines']): return ok(0)
     line = d['lines'][d['pos']]; d['pos'] += 1
